@@ -718,3 +718,271 @@ Proof.
 Qed.
 
 End AttList.
+
+(** ** the internal subset and the document type declaration *)
+Lemma body_markup_decl : body G_xml nt_markup_decl =
+  Alt (Map L_model_DeclarationMarkup_element (NT nt_element_decl)) (Alt (Map L_model_DeclarationMarkup_attributes (NT nt_attlist_decl))
+  (Alt (Map L_model_DeclarationMarkup_from (NT nt_entity_decl)) (Alt (Map L_model_DeclarationMarkup_from (NT nt_notation_decl))
+  (Alt (Map L_model_DeclarationMarkup_from (NT nt_pi)) (Map L_model_DeclarationMarkup_from (NT nt_comment)))))).
+Proof. reflexivity. Qed.
+Lemma body_int_subset : body G_xml nt_int_subset =
+  Many0 (Alt (Map L_model_InternalSubset_from (NT nt_markup_decl)) (NT nt_decl_sep)).
+Proof. reflexivity. Qed.
+Lemma body_decl_sep : body G_xml nt_decl_sep =
+  Alt (Map L_model_InternalSubset_from (NT nt_pe_reference)) (Map L_model_InternalSubset_Whitespace (Chars1 ws)).
+Proof. reflexivity. Qed.
+Lemma body_doctype_decl : body G_xml nt_doctype_decl =
+  Map L_model_DeclarationDoc_from (Seq (SeqR (Seq (Tag [60;33;68;79;67;84;89;80;69]) (Chars1 ws)) (NT nt_qname))
+    (Seq (SeqL (Opt (SeqR (Chars1 ws) (NT nt_external_id))) (Chars0 ws))
+         (SeqL (Opt (SeqR (Tag [91]) (SeqL (NT nt_int_subset) (Seq (Tag [93]) (Chars0 ws))))) (Tag [62])))).
+Proof. reflexivity. Qed.
+
+Definition subset_item : pexpr := Alt (Map L_model_InternalSubset_from (NT nt_markup_decl)) (NT nt_decl_sep).
+
+Lemma fails_element_decl (s : str) : prefix [60;33;69;76;69;77;69;78;84] s = None -> F (NT nt_element_decl) s.
+Proof.
+  intros H. apply fails_nt.
+  change (body G_xml nt_element_decl) with
+    (Map L_model_DeclarationElement_from (SeqR (Seq (Tag [60;33;69;76;69;77;69;78;84]) (Chars1 ws))
+       (SeqL (Seq (NT nt_qname) (SeqR (Chars1 ws) (NT nt_content_spec))) (Seq (Chars0 ws) (Tag [62]))))).
+  apply fails_map. apply fails_seqr_l. apply fails_seq_l. apply fails_tag. exact H.
+Qed.
+Lemma fails_attlist_decl (s : str) : prefix [60;33;65;84;84;76;73;83;84] s = None -> F (NT nt_attlist_decl) s.
+Proof. intros H. apply fails_nt. rewrite body_attlist_decl. apply fails_map. apply fails_seqr_l. apply fails_seq_l. apply fails_tag. exact H. Qed.
+Lemma fails_entity_decl (s : str) : prefix [60;33;69;78;84;73;84;89] s = None -> F (NT nt_entity_decl) s.
+Proof.
+  intros H. apply fails_nt. rewrite body_entity_decl. apply fails_alt; apply fails_map; apply fails_nt.
+  - rewrite body_ge_decl. apply fails_map. apply fails_seq_l. apply fails_seqr_l. apply fails_seq_l. apply fails_tag. exact H.
+  - change (body G_xml nt_pe_decl) with
+      (Map L_model_DeclarationParameterEntity_from
+         (Seq (SeqR (Seq (Tag [60;33;69;78;84;73;84;89]) (Seq (Chars1 ws) (Seq (Tag [37]) (Chars1 ws)))) (SeqL (NT nt_name) (Chars1 ws)))
+              (SeqL (NT nt_pe_def) (Seq (Chars0 ws) (Tag [62]))))).
+    apply fails_map. apply fails_seq_l. apply fails_seqr_l. apply fails_seq_l. apply fails_tag. exact H.
+Qed.
+Lemma fails_notation_decl (s : str) : prefix [60;33;78;79;84;65;84;73;79;78] s = None -> F (NT nt_notation_decl) s.
+Proof. intros H. apply fails_nt. rewrite body_notation_decl. apply fails_map. apply fails_seq_l. apply fails_seqr_l. apply fails_seq_l. apply fails_tag. exact H. Qed.
+
+(** at `]` the internal subset ends *)
+Lemma subset_item_fails_end (r : str) : F subset_item (93 :: r).
+Proof.
+  unfold subset_item. apply fails_alt.
+  - apply fails_map. apply fails_nt. rewrite body_markup_decl. repeat apply fails_alt; apply fails_map.
+    + apply fails_element_decl. reflexivity.
+    + apply fails_attlist_decl. reflexivity.
+    + apply fails_entity_decl. reflexivity.
+    + apply fails_notation_decl. reflexivity.
+    + apply fails_pi. reflexivity.
+    + apply fails_comment. reflexivity.
+  - apply fails_nt. rewrite body_decl_sep. apply fails_alt; apply fails_map.
+    + apply fails_pe_reference. reflexivity.
+    + apply fails_chars1. exact eq_refl.
+Qed.
+
+Definition un_dtd_item (c : dtd_item) : int_subset :=
+  match c with
+  | DtAttList a => IsMarkup (MkAttributes (un_attlist a))
+  | DtEntity e => IsMarkup (MkEntity (DeGeneral (en_name e) (entity_def_of e)))
+  | DtNotation n => IsMarkup (MkNotation (DeclNotation (no_name n) (notation_id_of n)))
+  | DtPI p => IsMarkup (MkPI p)
+  end.
+
+(** the invariants of the children of a document type declaration; [acc] = the general entities
+    declared so far *)
+Fixpoint dtd_wf (ext : bool) (acc : list entity) (l : list dtd_item) : Prop :=
+  match l with
+  | [] => True
+  | DtAttList a :: l' => attlist_wf acc ext a /\ dtd_wf ext acc l'
+  | DtEntity e :: l' => entity_wf e /\ dtd_wf ext (acc ++ [e]) l'
+  | DtNotation n :: l' => notation_wf n /\ dtd_wf ext acc l'
+  | DtPI p :: l' => pi_ok p /\ dtd_wf ext acc l'
+  end.
+
+Lemma dtd_item_rt (ext : bool) (acc : list entity) (c : dtd_item) (r : str) :
+  match c with
+  | DtAttList a => attlist_wf acc ext a | DtEntity e => entity_wf e | DtNotation n => notation_wf n | DtPI p => pi_ok p
+  end ->
+  yields subset_item (d_dtd_item false c ++ r) (VIntSubset (un_dtd_item c)) r
+  /\ (0 < length (d_dtd_item false c))%nat.
+Proof.
+  intros Hc. unfold subset_item. destruct c as [a|e|n|p]; cbn [d_dtd_item un_dtd_item].
+  - destruct (attlist_decl_rt acc ext a r Hc) as [Hy _]. split; [|unfold d_attlist, s_attlist_open; cbn [app length]; lia].
+    apply yields_alt_l. apply (yields_map' (VMarkup (MkAttributes (un_attlist a)))); [reflexivity|].
+    apply yields_nt. rewrite body_markup_decl.
+    apply yields_alt_r; [apply fails_map; apply fails_element_decl; unfold d_attlist, s_attlist_open; norm_app; reflexivity|].
+    apply yields_alt_l. apply (yields_map' (VDeclAtt (un_attlist a))); [reflexivity|]. exact Hy.
+  - destruct (ge_decl_rt e r Hc) as [Hy _]. split; [|unfold d_entity, s_entity_open; cbn [app length]; lia].
+    apply yields_alt_l. apply (yields_map' (VMarkup (MkEntity (DeGeneral (en_name e) (entity_def_of e))))); [reflexivity|].
+    apply yields_nt. rewrite body_markup_decl.
+    apply yields_alt_r; [apply fails_map; apply fails_element_decl; unfold d_entity, s_entity_open; norm_app; reflexivity|].
+    apply yields_alt_r; [apply fails_map; apply fails_attlist_decl; unfold d_entity, s_entity_open; norm_app; reflexivity|].
+    apply yields_alt_l. apply (yields_map' (VDeclEntity (DeGeneral (en_name e) (entity_def_of e)))); [reflexivity|].
+    apply yields_nt. rewrite body_entity_decl. apply yields_alt_l.
+    apply (yields_map' (VGeneralEntity (en_name e) (entity_def_of e))); [reflexivity|]. exact Hy.
+  - destruct (notation_decl_rt n r Hc) as [Hy _]. split; [|unfold d_notation, s_notation_open; cbn [app length]; lia].
+    apply yields_alt_l. apply (yields_map' (VMarkup (MkNotation (DeclNotation (no_name n) (notation_id_of n))))); [reflexivity|].
+    apply yields_nt. rewrite body_markup_decl.
+    apply yields_alt_r; [apply fails_map; apply fails_element_decl; unfold d_notation, s_notation_open; norm_app; reflexivity|].
+    apply yields_alt_r; [apply fails_map; apply fails_attlist_decl; unfold d_notation, s_notation_open; norm_app; reflexivity|].
+    apply yields_alt_r; [apply fails_map; apply fails_entity_decl; unfold d_notation, s_notation_open; norm_app; reflexivity|].
+    apply yields_alt_l. apply (yields_map' (VDeclNotation (DeclNotation (no_name n) (notation_id_of n)))); [reflexivity|]. exact Hy.
+  - pose proof (yields_pi p r Hc) as Hy. rewrite d_pi_eq. split; [|unfold d_ppi; cbn [app length]; lia].
+    unfold d_ppi in *. rewrite <- !app_assoc in *. cbn [app] in *.
+    apply yields_alt_l. apply (yields_map' (VMarkup (MkPI p))); [reflexivity|].
+    apply yields_nt. rewrite body_markup_decl.
+    apply yields_alt_r; [apply fails_map; apply fails_element_decl; reflexivity|].
+    apply yields_alt_r; [apply fails_map; apply fails_attlist_decl; reflexivity|].
+    apply yields_alt_r; [apply fails_map; apply fails_entity_decl; reflexivity|].
+    apply yields_alt_r; [apply fails_map; apply fails_notation_decl; reflexivity|].
+    apply yields_alt_l. apply (yields_map' (VPI p)); [reflexivity|]. exact Hy.
+Qed.
+
+Definition d_dtd (l : list dtd_item) : str := flat_map (d_dtd_item false) l.
+
+Lemma subset_many (ext : bool) (r : str) : forall l acc, dtd_wf ext acc l ->
+  many_yields subset_item (d_dtd l ++ 93 :: r) (map VIntSubset (map un_dtd_item l)) (93 :: r)
+  /\ build_subset false ext acc (map un_dtd_item l) = IOk l.
+Proof.
+  induction l as [|c l IH]; intros acc Hw; cbn [d_dtd flat_map map].
+  - split; [|reflexivity]. apply my_stop. apply subset_item_fails_end.
+  - fold (d_dtd l). rewrite <- app_assoc.
+    assert (match c with
+            | DtAttList a => attlist_wf acc ext a | DtEntity e => entity_wf e | DtNotation n => notation_wf n | DtPI p => pi_ok p
+            end /\ dtd_wf ext (match c with DtEntity e => acc ++ [e] | _ => acc end) l) as [Hc Hl].
+    { destruct c; cbn [dtd_wf] in Hw; exact Hw. }
+    destruct (dtd_item_rt ext acc c (d_dtd l ++ 93 :: r) Hc) as [Hy Hlen].
+    destruct (IH _ Hl) as [IHy IHb]. split.
+    + eapply my_step; [exact Hy| |exact IHy]. rewrite (app_length (d_dtd_item false c)). unfold str, char in *. lia.
+    + destruct c as [a|e|n|p]; cbn [un_dtd_item build_subset].
+      * destruct (attlist_decl_rt acc ext a [] Hc) as [_ Hb]. rewrite Hb. cbn [ibind]. rewrite IHb. reflexivity.
+      * destruct (ge_decl_rt e [] Hc) as [_ [Hbe Hce]]. rewrite Hce. cbn [ibind]. rewrite Hbe. rewrite IHb. reflexivity.
+      * destruct (notation_decl_rt n [] Hc) as [_ Hbn]. rewrite IHb. cbn [ibind]. rewrite Hbn. reflexivity.
+      * rewrite IHb. reflexivity.
+Qed.
+
+Definition doctype_wf (sa : option bool) (dt : doctype) : Prop :=
+  qname_ok (mk_qname (dt_prefix dt) (dt_local dt))
+  /\ match dt_system dt, dt_public dt with
+     | None, None => True
+     | s, p => ext_ok s p
+     end
+  /\ dtd_wf (external_subset sa (dt_system dt)) [] (dt_children dt).
+
+Definition un_doctype (dt : doctype) : decl_doc :=
+  DeclDoc (mk_qname (dt_prefix dt) (dt_local dt))
+          (match dt_system dt, dt_public dt with None, None => None | s, p => Some (ext_of s p) end)
+          (map un_dtd_item (dt_children dt)).
+
+Lemma al_decl_doc n x (l : list int_subset) (some : bool) :
+  apply_label L_model_DeclarationDoc_from
+    (VPair (VQName n) (VPair (match x with Some e => VSome (VExternalId e) | None => VNone end)
+                             (if some then VSome (VList (map VIntSubset l)) else VNone)))
+  = VDeclDoc (DeclDoc n x (if some then l else [])).
+Proof.
+  change (apply_label L_model_DeclarationDoc_from
+    (VPair (VQName n) (VPair (match x with Some e => VSome (VExternalId e) | None => VNone end)
+                             (if some then VSome (VList (map VIntSubset l)) else VNone))))
+    with (match as_opt as_external_id (match x with Some e => VSome (VExternalId e) | None => VNone end),
+                as_opt (as_list as_int_subset) (if some then VSome (VList (map VIntSubset l)) else VNone) with
+          | Some x', Some s' => VDeclDoc (DeclDoc n x' (match s' with Some i => i | None => [] end))
+          | _, _ => VBad end).
+  destruct some.
+  - cbn [as_opt]. rewrite as_list_map by reflexivity. destruct x; reflexivity.
+  - destruct x; reflexivity.
+Qed.
+
+Definition dt_S2 : pexpr := SeqL (Opt (SeqR (Chars1 ws) (NT nt_external_id))) (Chars0 ws).
+Definition dt_S3 : pexpr := SeqL (Opt (SeqR (Tag [91]) (SeqL (NT nt_int_subset) (Seq (Tag [93]) (Chars0 ws))))) (Tag [62]).
+
+Lemma fails_external_id (s : str) : prefix [83;89;83;84;69;77] s = None -> prefix [80;85;66;76;73;67] s = None -> F (NT nt_external_id) s.
+Proof.
+  intros H1 H2. apply fails_nt. rewrite body_external_id. apply fails_alt; apply fails_map; apply fails_seqr_l; apply fails_seq_l;
+    apply fails_tag; assumption.
+Qed.
+
+(** the printed internal subset: ` [...]` or nothing *)
+Definition d_subset (l : list dtd_item) : str := match l with [] => [] | ch => 32 :: 91 :: d_dtd ch ++ [93] end.
+Definition v_subset (l : list dtd_item) : val :=
+  match l with [] => VNone | ch => VSome (VList (map VIntSubset (map un_dtd_item ch))) end.
+
+Lemma subset_rt (ext : bool) (l : list dtd_item) (r : str) : dtd_wf ext [] l ->
+  exists sp rest : str, d_subset l ++ 62 :: r = sp ++ rest /\ forallb (eval ws) sp = true /\ stops (eval ws) rest
+                        /\ yields dt_S3 rest (v_subset l) r.
+Proof.
+  intros Hw. destruct l as [|c0 l0].
+  - exists [], (62 :: r). split; [reflexivity|]. split; [reflexivity|]. split; [exact eq_refl|].
+    unfold dt_S3. cbn [v_subset]. eapply yields_seql; [apply yields_opt_none; apply fails_seqr_l; apply fails_tag; reflexivity|tag].
+  - destruct (subset_many ext (62 :: r) (c0 :: l0) [] Hw) as [Hm _].
+    exists [32], (91 :: d_dtd (c0 :: l0) ++ 93 :: 62 :: r). split; [unfold d_subset; norm_app; reflexivity|].
+    split; [reflexivity|]. split; [exact eq_refl|].
+    unfold dt_S3. cbn [v_subset]. eapply yields_seql; [|apply (parses_tag G_xml [62] r)].
+    apply yields_opt_some. eapply yields_seqr; [tag|].
+    eapply yields_seql; [apply yields_nt; rewrite body_int_subset; apply yields_many0; exact Hm|].
+    eapply parses_seq; [tag|apply parses_chars0_nil; exact eq_refl].
+Qed.
+
+Theorem doctype_round_trip (sa : option bool) (dt : doctype) : doctype_wf sa dt -> doctype_rt sa dt.
+Proof.
+  intros [Hq [Hx Hd]] r.
+  set (ext := external_subset sa (dt_system dt)) in *.
+  set (xo := match dt_system dt, dt_public dt with None, None => None | s, p => Some (ext_of s p) end).
+  exists (un_doctype dt). split.
+  - apply yields_nt. rewrite body_doctype_decl. fold dt_S2. fold dt_S3.
+    apply (yields_map' (VPair (VQName (mk_qname (dt_prefix dt) (dt_local dt)))
+                              (VPair (match xo with Some e => VSome (VExternalId e) | None => VNone end) (v_subset (dt_children dt))))).
+    { pose proof (al_decl_doc (mk_qname (dt_prefix dt) (dt_local dt)) xo (map un_dtd_item (dt_children dt))
+                              (match dt_children dt with [] => false | _ => true end)) as H.
+      unfold un_doctype. fold xo. unfold v_subset. destruct (dt_children dt); exact H. }
+    unfold d_doctype, s_doctype_open. rewrite d_name_qname.
+    assert (match dt_children dt with [] => [] | ch => 32 :: 91 :: flat_map (d_dtd_item false) ch ++ [93] end = d_subset (dt_children dt)) as ->
+      by (destruct (dt_children dt); reflexivity).
+    norm_app.
+    destruct (qname_head _ Hq) as [c [u [Ec Hc]]].
+    destruct (subset_rt ext (dt_children dt) r Hd) as [sp [rest [Esub [Hsp [Hrest Hy3]]]]].
+    eapply yields_seq.
+    + exists (tree_qname (mk_qname (dt_prefix dt) (dt_local dt))). split; [|apply eval_tree_qname].
+      eapply parses_seqr.
+      * eapply parses_seq; [tag|]. apply (parses_chars1 G_xml ws [32]); [discriminate|reflexivity|].
+        rewrite Ec. cbn [app stops]. apply name_start_not_ws. exact Hc.
+      * apply parses_qname; [exact Hq|].
+        unfold d_external, s_public, s_system. destruct (dt_public dt); [exact eq_refl|]. destruct (dt_system dt); [exact eq_refl|].
+        cbn [app]. unfold d_subset. destruct (dt_children dt); exact eq_refl.
+    + destruct (dt_system dt) as [s|] eqn:Es.
+      * (* external identifier present *)
+        assert (ext_ok (Some s) (dt_public dt)) as Hx' by (destruct (dt_public dt); exact Hx).
+        destruct (external_id_rt (Some s) (dt_public dt) (d_subset (dt_children dt) ++ 62 :: r) Hx') as [t [Et Hy]].
+        assert (xo = Some (ext_of (Some s) (dt_public dt))) as -> by (unfold xo; destruct (dt_public dt); reflexivity).
+        rewrite Et. norm_app.
+        assert (exists c1 u1, t = c1 :: u1 /\ eval ws c1 = false) as [c1 [u1 [E1 H1]]].
+        { unfold d_external, s_public, s_system in Et. destruct (dt_public dt); injection Et as <-; eexists; eexists; split; reflexivity. }
+        eapply yields_seq; [|exact Hy3].
+        unfold dt_S2. eapply yields_seql.
+        { apply yields_opt_some. eapply yields_seqr; [|exact Hy].
+          apply (parses_chars1 G_xml ws [32]); [discriminate|reflexivity|]. rewrite E1. exact H1. }
+        unfold str, char in *. rewrite Esub. apply parses_chars0; assumption.
+      * (* no external identifier *)
+        assert (dt_public dt = None) as Ep.
+        { destruct (dt_public dt); [cbn in Hx; destruct Hx|reflexivity]. }
+        assert (xo = None) as -> by (unfold xo; rewrite Ep; reflexivity).
+        unfold d_external. rewrite Ep. cbn [app].
+        eapply yields_seq; [|exact Hy3].
+        unfold dt_S2. eapply yields_seql.
+        { apply yields_opt_none. unfold str, char in *. rewrite Esub. destruct sp as [|c1 sp'].
+          - apply fails_seqr_l. apply fails_chars1. exact Hrest.
+          - eapply fails_seqr_r; [apply parses_chars1; [discriminate|exact Hsp|exact Hrest]|].
+            (* the only non-empty case is the space before `[` *)
+            unfold d_subset in Esub. destruct (dt_children dt) as [|c0 l0].
+            + cbn [app] in Esub. injection Esub as Ec1 _. subst c1. cbn in Hsp. discriminate.
+            + cbn [app] in Esub. injection Esub as <- Esub. destruct sp' as [|c2 sp''].
+              * cbn [app] in Esub. rewrite <- Esub. apply fails_external_id; reflexivity.
+              * cbn [app] in Esub. injection Esub as <- _. cbn in Hsp. discriminate. }
+        unfold str, char in *. rewrite Esub. apply parses_chars0; assumption.
+  - (* build *)
+    unfold build_doctype, un_doctype. cbn [dd_internal_subset dd_external_id dd_name].
+    assert ((match (match dt_system dt, dt_public dt with None, None => None | s, p => Some (ext_of s p) end) with
+             | Some x => Some (fst (external_id_parts x)) | None => None end) = dt_system dt
+            /\ (match (match dt_system dt, dt_public dt with None, None => None | s, p => Some (ext_of s p) end) with
+                | Some x => snd (external_id_parts x) | None => None end) = dt_public dt) as [E1 E2].
+    { destruct (dt_system dt) as [s|] eqn:Es; destruct (dt_public dt) as [p|] eqn:Ep; cbn; auto. cbn in Hx. destruct Hx. }
+    rewrite E1. fold ext. destruct (subset_many ext [] (dt_children dt) [] Hd) as [_ Hb]. rewrite Hb. cbn [ibind].
+    rewrite E2, qname_parts_mk. destruct dt; reflexivity.
+Qed.
